@@ -105,7 +105,7 @@ func c07() []*Ob {
 								ok = false
 								if st := structOf(obj.Type()); st != nil {
 									for i := 0; i < st.NumFields(); i++ {
-										if st.Field(i).Name() == f {
+										if RecordedField(r.Type, st.Field(i).Name()) == f {
 											ok = true
 										}
 									}
